@@ -103,7 +103,20 @@ var c11Sites = []c11SiteDef{
 	{ID: "default.network", Dflt: map[string]any{"name": "proj_default"}, Oth: map[string]any{"name": "custom_default"}, Path: []any{"networks", "default", "name"}, Want: "custom_default"},
 }
 
-var c11Origins = []string{"main", "override", "extends", "extends-file", "include"}
+var c11Origins = []string{"main", "override", "override3", "extends", "extends-file", "include"}
+
+// c11Refiner says in which layer a scenario with Dep2 == 2 refines `b2` (-1: this origin has a single layer).
+// The list `[b, b2, b3]` then lives in the other layer: for the override origins the refinement comes in the LATER
+// file; for extends the list is in the BASE and the extending service refines.
+func c11Refiner(origin string) int {
+	switch origin {
+	case "override", "override3":
+		return 1
+	case "extends", "extends-file":
+		return 0
+	}
+	return -1
+}
 
 type c11Scenario struct {
 	Origin    string         `json:"origin"`
@@ -138,13 +151,21 @@ func c11Build(sc c11Scenario, implicit bool) (files map[string]string, configFil
 			// the base is itself a service of the project and the carrier of `a`'s networks: it cannot be kept off `default`
 			sc.OthersOff = false
 			// the base is a service of the same (validated) file: its depends_on entry must be complete on its own
+			if sc.Dep2 == 2 {
+				l2["depends_on.condition"] = 1 // the base lists b, b2, b3; the extending service re-specifies b2
+			}
 			l2["depends_on.required"] = l2["depends_on.condition"]
 			if sc.NoDefUse || sc.OthersOff {
 				l2["service.networks"] = 1
 			}
-		case "override":
+		case "extends-file":
 			if sc.Dep2 == 2 {
-				l2["depends_on.condition"] = 0 // the first file lists b and b2, the second one re-specifies b2
+				l2["depends_on.condition"] = 1
+				l2["depends_on.required"] = 1
+			}
+		case "override", "override3":
+			if sc.Dep2 == 2 {
+				l2["depends_on.condition"] = 0 // the earlier file lists b, b2, b3; the later one re-specifies b2
 			}
 			// every file is validated once merged: the first one cannot hold `required` without `condition`
 			if l2["depends_on.condition"] == 1 {
@@ -300,10 +321,12 @@ func c11Build(sc c11Scenario, implicit bool) (files map[string]string, configFil
 			}
 			if sc.Dep2 > 0 {
 				leaves = append(leaves, depLeaf{sc.Layer["depends_on.condition"] & 1, "b2", "condition", "service_started"})
+				leaves = append(leaves, depLeaf{sc.Layer["depends_on.condition"] & 1, "b3", "condition", "service_started"})
 			}
 		}
-		if sc.Dep2 == 2 && sc.Origin == "override" {
-			leaves = append(leaves, depLeaf{1, "b2", "condition", "service_healthy"})
+		if r := c11Refiner(sc.Origin); sc.Dep2 == 2 && r >= 0 {
+			leaves = append(leaves, depLeaf{r, "b2", "condition", "service_healthy"})
+			leaves = append(leaves, depLeaf{r, "b2", "required", false})
 		}
 	}
 	implied := []struct{ unit, id, entry string }{{"links", "links.depends_on", "c"}, {"ipc", "ipc.depends_on", "d"}, {"volumes_from", "volumes_from.depends_on", "e"}}
@@ -339,12 +362,14 @@ func c11Build(sc c11Scenario, implicit bool) (files map[string]string, configFil
 			// the same layer also spells other entries: the long form is the only way to write both
 			sub(dm, "b")["condition"] = "service_started"
 			if sc.Dep2 > 0 {
-				if _, has := dm["b2"]; !has {
-					sub(dm, "b2")["condition"] = "service_started"
+				for _, n := range []string{"b2", "b3"} {
+					if _, has := dm[n]; !has {
+						sub(dm, n)["condition"] = "service_started"
+					}
 				}
 			}
 		} else if sc.Dep2 > 0 {
-			layers[listForm]["depends_on"] = []any{"b", "b2"}
+			layers[listForm]["depends_on"] = []any{"b", "b2", "b3"}
 		} else {
 			layers[listForm]["depends_on"] = []any{"b"}
 		}
@@ -392,7 +417,7 @@ func c11Build(sc c11Scenario, implicit bool) (files map[string]string, configFil
 	}
 
 	others := map[string]any{}
-	for _, n := range []string{"b", "b2", "c", "d", "e"} {
+	for _, n := range []string{"b", "b2", "b3", "c", "d", "e"} {
 		o := map[string]any{"image": "i"}
 		if sc.NoDefUse || sc.OthersOff {
 			o["networks"] = []any{"other"}
@@ -424,7 +449,7 @@ func c11Build(sc c11Scenario, implicit bool) (files map[string]string, configFil
 		merge(main, resA)
 		merge(main, resMain)
 		configFiles = []string{"compose.yaml"}
-	case "override":
+	case "override", "override3":
 		a0["image"] = "i"
 		others["a"] = a0
 		main["services"] = others
@@ -436,6 +461,20 @@ func c11Build(sc c11Scenario, implicit bool) (files map[string]string, configFil
 		a1["labels"] = map[string]any{"l": "v"}
 		files["override.yaml"] = c11YAML(over)
 		configFiles = []string{"compose.yaml", "override.yaml"}
+		if sc.Origin == "override3" {
+			// three layers: a first file in which `a` already has a depends_on, so that everything the two later
+			// files say about depends_on goes through the merge of an override onto an existing mapping
+			files["override1.yaml"] = c11YAML(main)
+			c0 := map[string]any{"image": "i"}
+			if sc.NoDefUse || sc.OthersOff {
+				c0["networks"] = []any{"other"}
+			}
+			main = map[string]any{"services": map[string]any{"a": map[string]any{"image": "i", "depends_on": []any{"c0"}}, "c0": c0}}
+			if sc.NoDefUse || sc.OthersOff {
+				main["networks"] = map[string]any{"other": emptyRes()}
+			}
+			configFiles = []string{"compose.yaml", "override1.yaml", "override.yaml"}
+		}
 	case "extends", "extends-file", "extends-file-subdir":
 		a1["image"] = "i"
 		if sc.Origin == "extends" {
@@ -706,15 +745,26 @@ func c11RealMeta(raw json.RawMessage) any {
 				res.Failed = append(res.Failed, c11Check{"default-value", s.ID + "@" + sc.Origin, fmt.Sprintf("%s is not written with another value; the project should show the default %v but has %v", s.ID, want, got)})
 			}
 		}
+		dflt := map[string]any{"condition": "service_started", "required": true}
 		if sc.Dep2 > 0 && !absent["depends_on"] {
-			cond := "service_started"
-			if sc.Dep2 == 2 && sc.Origin == "override" {
-				cond = "service_healthy"
+			want := dflt
+			if sc.Dep2 == 2 && c11Refiner(sc.Origin) >= 0 {
+				want = map[string]any{"condition": "service_healthy", "required": false}
 			}
-			want := map[string]any{"condition": cond, "required": true}
 			got, _ := c11Get(exp, []any{"services", "a", "depends_on", "b2"})
 			if !reflect.DeepEqual(got, any(want)) {
-				res.Failed = append(res.Failed, c11Check{"default-value", "depends_on.b2@" + sc.Origin, fmt.Sprintf("depends_on.b2 should be %v but is %v", want, got)})
+				res.Failed = append(res.Failed, c11Check{"clobbered", "depends_on.b2@" + sc.Origin, fmt.Sprintf("depends_on.b2 should be %v but is %v", want, got)})
+			}
+			// the neighbour that no layer ever refines keeps the defaults
+			got, _ = c11Get(exp, []any{"services", "a", "depends_on", "b3"})
+			if !reflect.DeepEqual(got, any(dflt)) {
+				res.Failed = append(res.Failed, c11Check{"default-value", "depends_on.b3@" + sc.Origin, fmt.Sprintf("depends_on.b3 is written without attributes in every layer: it should be %v but is %v", dflt, got)})
+			}
+		}
+		if sc.Origin == "override3" {
+			got, _ := c11Get(exp, []any{"services", "a", "depends_on", "c0"})
+			if !reflect.DeepEqual(got, any(dflt)) {
+				res.Failed = append(res.Failed, c11Check{"default-value", "depends_on.c0@" + sc.Origin, fmt.Sprintf("depends_on.c0 (short form in the first file) should be %v but is %v", dflt, got)})
 			}
 		}
 	}
